@@ -534,6 +534,7 @@ func runAddFlag(c *core.Ctx) {
 		return strings.Contains(calleeReturnPath(sc), ".deleted[")
 	}
 	nFalse, nTrue := 0, 0
+	nReg, nRef := 0, 0
 	for _, rb := range an.ReturnBlocks(add) {
 		paths, ok := an.PathsTo(add, rb, 4096)
 		if !ok {
@@ -563,6 +564,10 @@ func runAddFlag(c *core.Ctx) {
 				return
 			case f.IsEmpty():
 				nTrue++
+				if !insTrue && p.Contains(a.insCall.Block()) {
+					c.Bad(nil, fname(c, add), "return-true-after-refusal", pos, "Add reports 'new' although the insertion helper refused the event (duplicate or older version)")
+					return
+				}
 			default:
 				nFalse++
 				why := ""
@@ -571,8 +576,12 @@ func runAddFlag(c *core.Ctx) {
 						why = "suppressed by the deletion registry"
 					}
 				}
+				if why != "" {
+					nReg++
+				}
 				if !insTrue && p.Contains(a.insCall.Block()) {
 					why = "insertion helper refused (duplicate or older)"
+					nRef++
 				}
 				if why == "" {
 					c.Bad(nil, fname(c, add), "return-false", pos, "Add reports 'not new' on a path that is neither a registry hit nor a refused insertion")
@@ -581,6 +590,6 @@ func runAddFlag(c *core.Ctx) {
 			}
 		}
 	}
-	c.Check(nFalse >= 2 && nTrue >= 1, nil, fname(c, add), "return-false", P.Pos(add.Pos()),
-		fmt.Sprintf("%d false paths (registry hit / refused insertion), %d true paths", nFalse, nTrue), fmt.Sprintf("expected false paths for suppression and refusal; found %d false, %d true", nFalse, nTrue))
+	c.Check(nReg >= 1 && nRef >= 1 && nTrue >= 1, nil, fname(c, add), "return-false", P.Pos(add.Pos()),
+		fmt.Sprintf("%d false paths (%d registry hit, %d refused insertion), %d true paths", nFalse, nReg, nRef, nTrue), fmt.Sprintf("expected 'not new' both for suppression and for a refused insertion; found %d registry paths, %d refusal paths, %d true paths", nReg, nRef, nTrue))
 }
